@@ -105,7 +105,7 @@ def handleGf2 : Handler
     some (showBlk (spMul nrows cols y))
   | ["gf2_blockdot", x, y] => do
     let x ← parseWords x; let y ← parseWords y
-    some (showBlk (blockDot x y))
+    some (showBlk (blockDotRot x y))
   | _ => none
 
 end Ymq.Drv
